@@ -9,12 +9,15 @@ ROOT=$(cd "$(dirname "$0")/.." && pwd)
 TMP=$(mktemp -d /tmp/govc-mutant-XXXXXX)
 trap 'rm -rf "$TMP"' EXIT
 ARGS=""
+# a path that starts with @fork/ names a file of the go-ethereum fork in the module cache (bodies verified through depspecs)
+FORK=$(cd "${VERIF_REPO:-/repo}" && GOFLAGS=-mod=mod go list -m -f '{{.Dir}}' github.com/ethereum/go-ethereum 2>/dev/null)
+src() { case "$1" in @fork/*) echo "$FORK/${1#@fork/}";; *) echo "${VERIF_REPO:-/repo}/$1";; esac; }
 for f in $(grep '^+++ b/' "$PATCH" | sed 's|^+++ b/||'); do
   mkdir -p "$TMP/$(dirname $f)"
-  if [ -f "${VERIF_REPO:-/repo}/$f" ]; then cp "${VERIF_REPO:-/repo}/$f" "$TMP/$f"; fi
+  if [ -f "$(src $f)" ]; then cp "$(src $f)" "$TMP/$f"; chmod u+w "$TMP/$f"; fi
 done
 (cd "$TMP" && patch -s -p1 < "$PATCH")
 for f in $(grep '^+++ b/' "$PATCH" | sed 's|^+++ b/||'); do
-  ARGS="$ARGS --overlay ${VERIF_REPO:-/repo}/$f=$TMP/$f"
+  ARGS="$ARGS --overlay $(src $f)=$TMP/$f"
 done
 VERIF_NO_REPLAY=1 VERIF_ROOT="$ROOT" "$ROOT/bin/govc" check --repo "${VERIF_REPO:-/repo}" --property "$PROP" --evidence "$TMP/evidence.json" --replays "$TMP/replays" $ARGS "$@"
